@@ -86,6 +86,9 @@ def run(eng, rep) -> None:
     rep.rule("S3", "frame = encode of the same message's member; last_send[idx] = time after the send; no other writes to the statics")
     rep.rule("J", "idx = loop.index0 of the message loop; array length = messages|length; macros/encode name the loop's message")
     rep.rule("P", "period <- binding field 'period', default -1")
+    rep.rule("W1", "a hand-written distance across a counter wrap counts the step from the maximum to 0")
+    from .lints import wraparound_off_by_one
+    wraparound_off_by_one(eng, rep, "W1", ("plugins/fcp_can_c/templates",))
     rep.assume("C semantics of the encode function (C06); zero static initialisation; the global device is never scheduled")
     jb = JinjaBinding(eng)
     ct, ht = jb.template(CT), jb.template(HT)
